@@ -179,7 +179,9 @@ def run_dino(case):
     aux["shape"] = list(mask.shape)
     aux["passthrough"] = passthrough_ok(case, batch, out_batch, ctx)
     aux["ctx_keys"] = sorted(ctx.keys())
-    ans = {"out": "ok", "masks": mask.to(int).tolist(), "gens": _dino_gens(log)}
+    sh = [e[1] for e in log if e[0] == "sh"]
+    ans = {"out": "ok", "masks": mask.to(int).tolist(), "gens": _dino_gens(log),
+           "shuffles": [len(p) for p in sh]}   # the model shuffles exactly once, all n masks
     return ans, _dino_request(case, log), aux
 
 
@@ -420,6 +422,10 @@ def ijepa_oracle(case, ans, aux):
         return None
     if not ijepa_in_domain(case, ans):
         return None
+    if ans["seed"] != case["counter"] + 1 or aux["counter_after"] != case["counter"] + 1:
+        return Failure("ijepa:step", f"block sizes seeded with {ans['seed']}, step counter was {case['counter']} for {tag}", case, case["counter"] + 1, ans["seed"])
+    if not all(g[2] for g in aux["gen_rand"]):
+        return Failure("ijepa:step", f"block size drawn without the step-seeded generator for {tag}", case)
     pred, enc = ans["pred"], ans["enc"]
     if len(pred) != case["nPred"] * B or len(enc) != case["nEnc"] * B:
         return Failure("ijepa:shape", f"{len(pred)} predictor / {len(enc)} encoder rows for {tag}", case,
@@ -444,10 +450,6 @@ def ijepa_oracle(case, ans, aux):
                     if er & set(pred[j * B + b]):
                         return Failure("ijepa:disjoint", f"encoder mask {e} of sample {b} intersects its predictor mask {j} for {tag}", case,
                                        [], sorted(er & set(pred[j * B + b])))
-    if ans["seed"] != case["counter"] + 1 or aux["counter_after"] != case["counter"] + 1:
-        return Failure("ijepa:step", f"block sizes seeded with {ans['seed']}, step counter was {case['counter']} for {tag}", case, case["counter"] + 1, ans["seed"])
-    if not all(g[2] for g in aux["gen_rand"]):
-        return Failure("ijepa:step", f"block size drawn without the step-seeded generator for {tag}", case)
     if not aux["passthrough"]:
         return Failure("ijepa:passthrough", f"batch / context data changed by the collator for {tag}", case)
     # block sizes depend only on the step counter: other rng seed, other batch size, same step
@@ -556,8 +558,8 @@ class C17(PropertyCheck):
     level_text = ("Lean theorems (KDVerif.Props.C17): DINO - for every proposal tape the masked count never exceeds the target (hence the upper "
                   "ratio), the outer loop terminates, shapes are kept, at most numMasked masks are non-empty, the shuffle is a permutation; I-JEPA - "
                   "index lists are strictly increasing and in range (also after truncation), predictor masks are full rectangles of one common size, "
-                  "encoder masks have one common length, under the margin the first proposal is accepted with all constraints active and the encoder "
-                  "mask is disjoint from the sample's predictor masks, block sizes are a function of the step. Model tied to the code each run by "
+                  "encoder masks have one common length, under the margin the first proposal is accepted with all constraints active and row e*B+b of "
+                  "encoder_masks is disjoint from row j*B+b of predictor_masks (same sample), block sizes are a function of the step. Model tied to the code each run by "
                   "differential correspondence on recorded tapes (masks / index tensors compared exactly).")
     level_note = ("trusted: Lean kernel + standard axioms; correspondence harness; float front ends observed not modelled; the constrained sampler's "
                   "non-termination for blocks of <= min_keep cells is outside the claim (observation)")
